@@ -125,6 +125,44 @@ theorem shallow_annotated_keeps_variable :
     ∧ substImpl true [(0, .app "int" [])] (.ann (.app "List" [.var 0]) "k") = .ann (.app "List" [.app "int" []]) "k" := by
   constructor <;> rfl
 
+/-- **the i-th argument binds the i-th parameter of the class's own list**, whenever the own list is a
+    duplicate-free rearrangement of the collected variables — whatever order the bases mention them in -/
+theorem bind_follows_own_list (own collected : List Nat) (args : List GTy) (hn : own.Nodup)
+    (hl : own.length = collected.length) (h1 : own.all collected.contains = true) (h2 : collected.all own.contains = true)
+    (i : Nat) (hi : i < own.length) (ha : i < args.length) :
+    look (bindArgs (paramOrder true own collected) args) own[i] = some args[i] := by
+  have hp : paramOrder true own collected = own := by
+    simp [paramOrder, hl, h1, h2]
+  rw [hp]
+  clear hp h1 h2 hl
+  induction own generalizing args i with
+  | nil => simp at hi
+  | cons p ps ih =>
+    cases args with
+    | nil => simp at ha
+    | cons a as =>
+      cases i with
+      | zero => simp [bindArgs, look]
+      | succ k =>
+        have hk' : k < ps.length := by simpa using hi
+        have hne : (p == ps[k]'hk') = false := by
+          have : p ∉ ps := (List.nodup_cons.mp hn).1
+          have hk : ps[k]'hk' ∈ ps := List.getElem_mem _
+          simp only [beq_eq_false_iff_ne, ne_eq]
+          intro he; exact this (he ▸ hk)
+        have := ih as (List.nodup_cons.mp hn).2 k hk' (by simpa using ha)
+        simpa [bindArgs, look, List.find?_cons, hne] using this
+
+/-- the pinned order (first appearance in the bases): for `class Child(Base[S, T], Generic[T, S])` the
+    arguments of `Child[int, str]` were bound S := int, T := str — the members' types swapped -/
+theorem base_order_swaps_arguments :
+    look (bindArgs (paramOrder false [0, 1] [1, 0]) [.app "int" [], .app "str" []]) 0 = some (.app "str" [])
+    ∧ look (bindArgs (paramOrder true [0, 1] [1, 0]) [.app "int" [], .app "str" []]) 0 = some (.app "int" []) := by
+  constructor <;> rfl
+
+/-- resolve_type_params consults the class's own parameter list (read from helpers.py on this run) -/
+theorem params_follow_own_list_pinned : Mashu.Generated.typeParamsFollowOwnList = true := by decide
+
 /-- the current source takes the recursive branch (table regenerated from helpers.py on every run) -/
 theorem subst_annotated_recursive_pinned : Mashu.Generated.substAnnotatedRecursive = true := by decide
 
